@@ -289,8 +289,9 @@ fn gen_pair(t: &mut Tape) -> Pair {
             }
             10 => {
                 forms.push("second output of an anonymous component discarded with _");
-                s.push_str(&format!("    (ta{i}, _) <== B2({kk})({e1}, {e2});\n    tb{i} <== 2;\n"));
-                e.push_str(&format!("    zc{i} = B2({kk});\n    zc{i}.q <== {e1};\n    zc{i}.p <== {e2};\n    ta{i} <== zc{i}.z;\n    tb{i} <== 2;\n"));
+                let par = if t.chance(80) { "parallel " } else { "" };
+                s.push_str(&format!("    (ta{i}, _) <== {par}B2({kk})({e1}, {e2});\n    tb{i} <== 2;\n"));
+                e.push_str(&format!("    zc{i} = {par}B2({kk});\n    zc{i}.q <== {e1};\n    zc{i}.p <== {e2};\n    ta{i} <== zc{i}.z;\n    tb{i} <== 2;\n"));
             }
             11 => {
                 forms.push("tuple declaration of signals");
@@ -433,6 +434,28 @@ fn faithfulness_case(ctx: &Ctx, tape: &[u8], rec: &Rec) -> Verdict {
     }
     if !es.is_empty() {
         return Err(Bad::new(format!("the sugared program is rejected ({}) although its hand-written expansion is analysed", es.join("; "))).sig("C18:sugared-rejected").rendered(render()));
+    }
+    // the `parallel` prefix of an anonymous component changes how it is scheduled, not what is declared,
+    // assigned or read: the findings with and without the prefix are the same (also inside loop bodies,
+    // where the generated component is an element of an array indexed by a generated counter)
+    if p.sugared.contains("parallel ") {
+        let plain = p.sugared.replace("parallel ", "");
+        let dir = scratch(ctx, "c18b");
+        let pp = dir.join("p.circom");
+        std::fs::write(&pp, &plain).map_err(|e| Bad::new(format!("INFRA write: {e}")))?;
+        let fp = findings(&pp);
+        let _ = std::fs::remove_dir_all(&dir);
+        let (fp, ep) = fp.map_err(|e| Bad::new(format!("analysing the program without `parallel` panicked: {e}")).sig("C18:panic").rendered(render()))?;
+        rec.class(if p.in_loop { "pairs_with_parallel_prefix_in_loop_body" } else { "pairs_with_parallel_prefix" });
+        if ep.is_empty() && fp != fs {
+            let only_s: Vec<_> = fs.iter().filter(|(k, n)| fp.get(*k).copied().unwrap_or(0) < **n).map(|(k, _)| k.clone()).collect();
+            let only_p: Vec<_> = fp.iter().filter(|(k, n)| fs.get(*k).copied().unwrap_or(0) < **n).map(|(k, _)| k.clone()).collect();
+            return Err(Bad::new(format!(
+                "the findings change when the `parallel` prefix of the anonymous components is removed: only with the prefix {only_s:?}; only without {only_p:?}"
+            ))
+            .sig("C18:parallel-prefix-changes-findings")
+            .rendered(render()));
+        }
     }
     if p.in_loop {
         rec.class("pairs_in_loop_weak_relation");
